@@ -55,5 +55,35 @@ MUTANTS = [
     elem.text = str(count['value'])""", """    metadata = _meta_dict(count.get('meta'))
     elem = ET.Element('Count', attrib=metadata)
     elem.text = str(count['value'])""")]},
+    {'name': 'shared-no-meta-dict-alone-is-benign', 'expect': 'silent', 'property': 'C02',
+     'edits': [E(L, """    else:
+        d = {}
+    return d""", """    else:
+        d = _NO_META
+    return d
+
+
+_NO_META: dict[str, str] = {}""")]},
+    {'name': 'shared-no-meta-dict-written', 'expect': ['C02-R7', 'C16-R4'],
+     'edits': [E(L, """    else:
+        d = {}
+    return d""", """    else:
+        d = _NO_META
+    return d
+
+
+_NO_META: dict[str, str] = {}"""),
+               E(L, """    elem = ET.Element('Count', attrib=_meta_dict(count.get('meta')))
+    elem.text = str(count['value'])""", """    attrib = _meta_dict(count.get('meta'))
+    attrib.setdefault('dc:type', 'count')
+    elem = ET.Element('Count', attrib=attrib)
+    elem.text = str(count['value'])""")]},
+    {'name': 'mutable-default-accumulates', 'expect': ['C02-R7', 'C16-R4'],
+     'edits': [E(L, "def _meta_dict(meta: Optional[Metadata]) -> dict[str, str]:\n    if meta is not None:", "def _meta_dict(meta: Optional[Metadata], d: dict[str, str] = {}) -> dict[str, str]:\n    if meta is not None:"),
+               E(L, """    else:
+        d = {}
+    return d""", """    else:
+        d.clear()
+    return d""")]},
 ]
 MUTANTS = [m for m in MUTANTS if 'xfail' not in m]
